@@ -199,3 +199,29 @@ def nontrivial(tr):
             if nd.get('r', 0) >= 1 or nd.get('lb') != ['none'] or nd.get('dec'):
                 return True
     return False
+
+
+def validate_trace(ctx, cfg, ndjson_path, timeout=600):
+    """TLC decides whether the recorded execution (ndjson) is a behaviour of Tendermint.tla (Trace_Tendermint.tla)
+    and evaluates the safety invariants on every state of it. Returns TLCResult; accepted iff r.ok."""
+    d = tlc.scratch_copy(SPEC, prefix='vtr')
+    try:
+        cfg.write(ctx, d)
+        mod = open(os.path.join(d, 'MC_gen.tla')).read().replace('---- MODULE MC_gen ----', '---- MODULE MC_trace ----') \
+            .replace('EXTENDS Tendermint', 'EXTENDS Trace_Tendermint')
+        with open(os.path.join(d, 'MC_trace.tla'), 'w') as f:
+            f.write(mod)
+        c = open(os.path.join(d, 'MC_gen.cfg')).read()
+        c = c.replace('SPECIFICATION Spec', 'SPECIFICATION TraceSpec').replace('VIEW view', 'VIEW TraceView')
+        c = '\n'.join(l for l in c.splitlines() if not l.startswith('PROPERTIES') and not l.startswith('CONSTRAINT'))
+        c += '\nPOSTCONDITION TraceAccepted\n'
+        with open(os.path.join(d, 'MC_trace.cfg'), 'w') as f:
+            f.write(c)
+        shutil.copy(ndjson_path, os.path.join(d, 'trace.ndjson'))
+        r = tlc.run(d, 'MC_trace.tla', 'MC_trace.cfg', workers=1, timeout=timeout)
+        if r.ok and ('TraceAccepted' in r.out and 'violated' in r.out):
+            r.ok = False
+            r.violation = 'TraceAccepted'
+        return r
+    finally:
+        shutil.rmtree(d, ignore_errors=True)
